@@ -429,6 +429,14 @@ def run(prog, tier, extra=None):
         if fld not in got_tx:
             res.add(Finding(R10, "C06.tx-hash-coverage|transaction|%s" % fld, "Transaction::serialize_for_signature does not read Transaction.%s: the field can be changed after signing "
                             "without changing the merkle leaf" % fld, tsig.loc(0)))
+    # the routing path is added hop by hop after the sender signed, so the *signature* cannot cover it - but the merkle leaf is the same
+    # hash, so the block hash does not commit to the paths either: a relaying party can swap a hop for another one the same router
+    # signed; total_work and the lottery outcome then differ between two copies of one block hash
+    res.instance(R10)
+    if "path" not in got_tx:
+        res.add(Finding(R10, "C06.tx-hash-coverage|leaf|path", "the merkle leaf of a transaction is its hash_for_signature, which does not cover Transaction.path: two copies of a signed block that "
+                        "differ in a routing hop have the same hash, are both accepted, and give different routing work / payout winners - the nodes holding them part ways at the next block",
+                        tsig.loc(0)))
     THIN = ("filter", "filter_map", "skip", "skip_while", "take", "take_while", "step_by", "find", "nth", "last", "next", "rev_skip", "dedup", "dedup_by_key")
     thin = [(b_, bb, (call_name(t) or "").rsplit("::", 1)[-1]) for b_ in sig_bodies for bb, t in b_.calls()
             if (call_name(t) or "").rsplit("::", 1)[-1] in THIN and ("iter::" in (call_name(t) or "") or "Iterator" in (call_name(t) or ""))
